@@ -266,6 +266,13 @@ func (o *c04Oracle) check(st c04Step, code int, prev, next []*c04Vol, t0, t1 tim
 					o.backdated[h] = fmt.Sprintf("%s replaced the replica on volume %d (mtime %d) by a trashed copy (mtime %d)", st, i, pm, nm)
 				}
 			}
+			// a replica restored by untrash carries a current timestamp (it
+			// is protected like a new write; otherwise a trash request
+			// naming the old timestamp could remove it again at once, even
+			// if a freshly written copy was replaced by the rename)
+			if untrashHere && nok && len(prev[i].trash[h]) > len(next[i].trash[h]) && !fresh(nm) {
+				return fmt.Sprintf("%s restored %s on volume %d with the old timestamp %d (now %d, replica before: present=%v mtime=%d): the restored replica is not protected for the TTL", st, h, i, nm, t1.UnixNano(), pok, pm)
+			}
 			// trash files
 			for d := range prev[i].trash[h] {
 				if next[i].trash[h][d] {
